@@ -166,6 +166,26 @@ fn main() {
             std::fs::write(&path, body).expect("write replay");
             println!("{}", path);
         }
+        "dump-parse" => {
+            // dump-parse <replay file of C11/C12>: show what the parser makes of the input and of its written form
+            let txt = std::fs::read_to_string(&args[2]).expect("read");
+            let rf: ReplayFile = serde_json::from_str(&txt).expect("parse");
+            let data = rqv::bytes::unesc(rf.case["data"].as_str().unwrap_or("")).expect("unescape");
+            match rqv::inproc::parse_and_write(&data) {
+                Ok((p1, w1)) => {
+                    println!("p1 = {:#?}", p1);
+                    println!("w1 = {}", rqv::bytes::esc(&w1));
+                    match rqv::inproc::parse_and_write(&w1) {
+                        Ok((p2, w2)) => {
+                            println!("p2 = {:#?}", p2);
+                            println!("w2 == w1: {}", w2 == w1);
+                        }
+                        Err(e) => println!("second parse: {}", e),
+                    }
+                }
+                Err(e) => println!("first parse: {}", e),
+            }
+        }
         "run" => {
             let prop = args[2].clone();
             let tier = parse_tier(&args[3]);
